@@ -16,7 +16,7 @@ func init() {
 	Registry["C05"] = c05
 	Metas["C05"] = Meta{Level: "other", NeedCG: true,
 		Technique: "static analysis: effect-set (append vs reset) check of per-block accumulators, dominance of state rebuild, who-may-call of the execution callbacks, publish-order check around atomic status stores, nondeterminism-source lint with a reviewed table",
-		Explain: "Determinism of replicated execution is a hyperproperty over two runs and is not decided. Decided are structural necessary conditions: (R1) every EVMApp field that the per-transaction end callback appends to is reset on the commit path, so a block's receipts hash cannot depend on earlier blocks of the same process lifetime; (R2) OnExecute rebuilds currentState from the persisted last app hash, unconditionally, before any transaction runs, and nothing else assigns currentState; (R3) the execution callbacks are invoked only by the in-order executor loop (never from a worker goroutine) with the outer loop index, the serial variant (which does not verify signatures) has no production caller, and the worker count only sizes the verifier pool; (R4) in the parallel verifier no plain field of a transaction slot is written after the atomic store that publishes its terminal status; (R5) in the AnnChain-specific execution/commit/hash code every map iteration and every time/rand/NumCPU use is in the reviewed table (order-insensitive or not feeding replicated state); (R6) the receipts hash is computed from the block's receipts then key-value records, in slice order. (R7) no package-level variable of the application or state packages is written after initialisation (evmConfig is shared by block execution and RPC queries). NOT decided: equality of hashes between runs, EVM determinism (C10/C11).",
+		Explain: "Determinism of replicated execution is a hyperproperty over two runs and is not decided. Decided are structural necessary conditions: (R1) every EVMApp field that the per-transaction end callback appends to is reset on the commit path, so a block's receipts hash cannot depend on earlier blocks of the same process lifetime; (R2) OnExecute rebuilds currentState from the persisted last app hash, unconditionally, before any transaction runs, and nothing else assigns currentState; (R3) the execution callbacks are invoked only by the in-order executor loop (never from a worker goroutine) with the outer loop index, the serial variant (which does not verify signatures) has no production caller, and the worker count only sizes the verifier pool; (R4) in the parallel verifier no plain field of a transaction slot is written after the atomic store that publishes its terminal status; (R5) in the AnnChain-specific execution/commit/hash code every map iteration and every time/rand/NumCPU use is in the reviewed table (order-insensitive or not feeding replicated state); (R6) the receipts hash is computed from the block's receipts then key-value records, in slice order. (R7) no package-level variable of the application or state packages is written after initialisation (evmConfig is shared by block execution and RPC queries). (R2 also) the gas pool given to ApplyTransaction is created per transaction. NOT decided: equality of hashes between runs, EVM determinism (C10/C11).",
 		Assume: []string{"the in-tree EVM and trie are deterministic (C10/C11)", "rlp encoding is canonical (C18)"},
 	}
 }
